@@ -12,14 +12,20 @@ D8 = dict(overlays=['contracts/delta.ovl', 'contracts/delta_length.ovl', 'contra
 CHK = ['--bounds-check', '--pointer-check', '--div-by-zero-check', '--signed-overflow-check', '--undefined-shift-check']
 OVL3 = ['contracts/delta.ovl', 'contracts/delta_length.ovl', 'contracts/delta_strings.ovl']
 D8S = dict(D8, overlays=OVL3)
+D8S_NOPROP = {k: v for k, v in D8S.items() if k != 'prop'}
 
 JOBS = [
     dict(name='c08_delta_read_uleb128', replayer=RP_DELTA, entry='h_read_uleb128', enforce='read_uleb128', min_loop_obligations=1, **D8),
     dict(name='c08_delta_decoder_init', replayer=RP_DELTA, entry='h_decoder_init', enforce='delta_decoder_init', replace=['read_uleb128'],
          defines=['CQV_MEMSET_EXACT=344'], unwindset=['memset.0:345'], **D8),
     dict(name='c08_delta_read_block', replayer=RP_DELTA, entry='h_read_block', enforce='delta_decoder_read_block', replace=['read_uleb128'], **D8),
+    # full job (all 1083 obligations, 1-3 min) in the thorough tier; the quick slice keeps the contract-level obligations
+    # (ensures, loop invariants incl. the value relation, decreases, inserted assertions) that catch the seeded mutations
     dict(name='c08_delta_read_mini_block', replayer=RP_DELTA, entry='h_read_mini_block', enforce='delta_decoder_read_mini_block',
-         replace=['delta_decoder_read_block'], min_loop_obligations=4, trusted=[BITPACK_STUB], **D8),
+         replace=['delta_decoder_read_block'], min_loop_obligations=4, trusted=[BITPACK_STUB], tier='thorough', **D8),
+    dict(name='c08_delta_read_mini_block_logic', replayer=RP_DELTA, entry='h_read_mini_block', enforce='delta_decoder_read_mini_block',
+         replace=['delta_decoder_read_block'], min_loop_obligations=4, trusted=[BITPACK_STUB],
+         select=r'^delta_decoder_read_mini_block\.(\d+|postcondition\.\d+|assertion\.\d+) ', **D8),
     dict(name='c08_delta_decoder_next', replayer=RP_DELTA, entry='h_decoder_next', enforce='delta_decoder_next',
          replace=['delta_decoder_read_mini_block'], **D8),
     dict(name='c08_delta_decode_int32', replayer=RP_DELTA, entry='h_decode_int32', enforce='carquet_delta_decode_int32',
@@ -35,11 +41,11 @@ JOBS = [
     dict(name='c08_delta_length_views_leak', replayer=RP_LENGTH, entry='h_delta_length_views', replace=['carquet_delta_decode_int32'],
          loop_contracts=False, unwind=4, level='bounded', bound='num_values <= 3 strings (all bytes, all sizes)',
          defines=['CQV_NMAX=3', 'CQV_OOM=1'], functions=['carquet_delta_length_decode'],
-         checks=CHK + ['--memory-leak-check'], cbmc_flags=['--malloc-may-fail', '--malloc-fail-null'], **D8S),
+         checks=CHK + ['--memory-leak-check'], cbmc_flags=['--malloc-may-fail', '--malloc-fail-null'], **dict(D8S_NOPROP, props=['C08', 'C19'])),
     dict(name='c08_delta_strings_views_leak', replayer=RP_STRINGS, entry='h_delta_strings_views', replace=['carquet_delta_decode_int32'],
          loop_contracts=False, unwind=4, level='bounded', bound='num_values <= 3 strings (all bytes, all sizes)',
          defines=['CQV_NMAX=3', 'CQV_OOM=1'], functions=['carquet_delta_strings_decode'],
-         checks=CHK + ['--memory-leak-check'], cbmc_flags=['--malloc-may-fail', '--malloc-fail-null'], **D8S),
+         checks=CHK + ['--memory-leak-check'], cbmc_flags=['--malloc-may-fail', '--malloc-fail-null'], **dict(D8S_NOPROP, props=['C08', 'C19'])),
 ]
 
 # ---------------- encoder side: C11 (round trip ingredients) / C12 (layout per Encodings.md) ----------------
@@ -75,6 +81,18 @@ JOBS += [
          replace=['write_uleb128', 'delta_encoder_init', 'delta_encoder_flush_block'], min_loop_obligations=1, **D11),
 ]
 
+# DELTA_LENGTH_BYTE_ARRAY / DELTA_BYTE_ARRAY encoders: harness-is-contract, bounded, recording stubs for the two callees
+ENC_STUBS = 'harness/C12/delta.c: recording stubs for carquet_delta_encode_int32 (its proved contract: arbitrary size <= capacity or error) ' \
+            'and carquet_buffer_append (source readable, OK or OUT_OF_MEMORY; proved by the buffer family)'
+D12 = dict(overlays=OVL3, harness='harness/C12/delta.c', props=['C11', 'C12'], includes=['.', 'src'], extra_sources=['stubs/mem_stubs.c'],
+           loop_contracts=False, unwind=6, level='bounded', bound='num_values <= 3 values of <= 4 bytes each (all contents, NULL/empty values, every append/encode/malloc may fail)',
+           defines=['CQV_NMAX=3', 'CQV_LMAX=4'], trusted=[ENC_STUBS],
+           checks=CHK + ['--memory-leak-check'], cbmc_flags=['--malloc-may-fail', '--malloc-fail-null'], wip=True)
+JOBS += [
+    dict(name='c11_delta_length_encode', entry='h_delta_length_encode', functions=['carquet_delta_length_encode'], **D12),
+    dict(name='c11_delta_strings_encode', entry='h_delta_strings_encode', functions=['carquet_delta_strings_encode', 'common_prefix_length'], **D12),
+]
+
 for _j in JOBS:
     if _j['harness'] == 'harness/C11/delta.c':
         _j['defines'] = _j.get('defines', []) + ['CQV_DELTA_ENC=1']   # encoder contracts are compiled in only for these jobs
@@ -89,6 +107,9 @@ DONE = ['c08_delta_read_uleb128', 'c08_delta_read_block', 'c08_delta_decoder_nex
         # encoder side: ok on /repo afcedfb, each reported a seeded breakage (wrong packed_bytes_needed for widths > 32,
         # flush at > 128 deltas, 4-byte header guard, block size 64)
         'c11_delta_flush_block_safe', 'c11_delta_flush_block_fit', 'c11_delta_encoder_init', 'c11_delta_encode_int32', 'c11_delta_encode_int64',
+        # round 3: quick slice of read_mini_block (catches the int32_t unpacked mutation), DELTA_LENGTH / DELTA_BYTE_ARRAY encoders
+        # (catch: prev value not updated after an empty value, suffix from offset 0, value of length 1 not appended, missing free)
+        'c08_delta_read_mini_block_logic', 'c11_delta_length_encode', 'c11_delta_strings_encode',
         'c12_delta_flush_block_spec_size']   # live: fails on the recorded known finding KF-C12-delta-wide only
 NOTES = {
     'c12_delta_flush_block_spec_size': 'FINDING (C12, to be recorded as known): fails on exactly the ensures DELTA_FLUSH_SPEC_SIZE (115 other obligations ok): for widths 33..63 not divisible by 8 '
